@@ -90,6 +90,7 @@ struct St {
     e_max_frame: usize,
     credit_conn: i64,
     credit: HashMap<u32, i64>,
+    data_off: HashMap<u32, usize>,
     /// bytes of DATA on streams the peer has sent so far (to initialise credit lazily)
     auto_ack: bool,
     grant: Grant,
@@ -153,6 +154,7 @@ pub async fn peer_task(spec: Rc<RawSpec>, rx: PipeRef, tx: PipeRef, peer_is_clie
         e_max_frame: 16384,
         credit_conn: 65535,
         credit: HashMap::new(),
+        data_off: HashMap::new(),
         auto_ack: true,
         grant: spec.grant,
         pending_grant: HashMap::new(),
@@ -414,7 +416,9 @@ pub async fn peer_task(spec: Rc<RawSpec>, rx: PipeRef, tx: PipeRef, peer_is_clie
                             break;
                         }
                         let k = (st.data_left as i64).min(room) as usize;
-                        let off = *len - st.data_left;
+                        // (position-dependent content, cumulative over all DATA steps of the stream)
+                        let off = *st.data_off.entry(*stream).or_insert(0);
+                        st.data_off.insert(*stream, off + k);
                         let data: Vec<u8> = (0..k).map(|i| crate::eng_codec::mix(*stream as u64 * 2, (off + i) as u64)).collect();
                         let last = k == st.data_left;
                         let f = Frame::Data { stream: *stream, end_stream: *end_stream && last, pad: *pad, data };
